@@ -362,11 +362,13 @@ m("progress-constraint-args-no-skip", ["C07"], ["PROGRESS|sylt_parser::parse_typ
 m("progress-blob-fields-newline-not-skipped", ["C07"], ["PROGRESS|statement::statement|loop#2"], PST,
   "                    T::Newline => {\n                        ctx = ctx.skip(1);\n                    }\n                    // Done with fields.", "                    T::Newline => {}\n                    // Done with fields.")
 m("progress-call-args-eof-keeps-looping", ["C07"], ["PROGRESS|sylt_parser::assignable_call|loop#1"], PPA,
-  "                let (_ctx, expr) = match (expression(ctx), primer) {\n                    (Err(_), true) => break,", "                let (_ctx, expr) = match (expression(ctx), primer) {\n                    (Err(_), true) => continue,")
+  "                if primer && !starts_expression(ctx.token()) {\n                    break;\n                }", "                if primer && !starts_expression(ctx.token()) {\n                    continue;\n                }")
 m("progress-skip-counts-comments", ["C07"], ["PROGRESS|Context::skip|advances-n"], PPA,
   "            if !matches!(new.token(), T::Comment(_)) {\n                skipped += 1;\n            }\n            new.curr += 1;", "            if !matches!(new.token(), T::Comment(_)) {\n                skipped += 1;\n                new.curr += 1;\n            }")
 m("twin-elif-loop-on-else-errors", ["C07"], "silent", PEX,
   "    while matches!(ctx.token(), T::Elif) {", "    while matches!(ctx.token(), T::Elif | T::Else) {")
+m("progress-unary-recurses-on-its-own-token", ["C07"], ["PROGRESS|recursion|"], PEX,
+  "    let (op, span, ctx) = ctx.eat();\n    let (ctx, expr) = parse_precedence(ctx, Prec::Factor)?;", "    let (op, span, _) = ctx.eat();\n    let (ctx, expr) = parse_precedence(ctx, Prec::Factor)?;")
 # terminating variants of the recovery code (an error has been recorded, so nothing is emitted either way): no alarm
 m("twin-block-recovery-keeps-newline", ["C07"], "silent", PST,
   "                ctx = skip_until!(ctx, T::Newline).skip_if(T::Newline);", "                ctx = skip_until!(ctx, T::Newline);")
